@@ -16,48 +16,48 @@ the `_src` theorem, is then re-proved by Lean on that run — or stops checking.
 -/
 namespace CircBuf
 
-theorem C20_push_back_src (s : Sys) (x : Elem) (h : Inv s.buf) :
+maybe theorem C20_push_back_src (s : Sys) (x : Elem) (h : Inv s.buf) :
     Frames (Gen.push_back x) s
       [if s.buf.size < s.buf.cap then phys s.buf.start s.buf.cap s.buf.size else s.buf.start] := by
   first
   | (rw [tie_push_back _ s h (nd_pushBack _ s h)]; exact C20_push_back s x h)
   | (have h0 := C20_push_back s x h; unfold Frames at h0 ⊢; rw [tie_push_back _ s h (nd_pushBack _ s h)]; exact h0)
 
-theorem C20_push_front_src (s : Sys) (x : Elem) (h : Inv s.buf) :
+maybe theorem C20_push_front_src (s : Sys) (x : Elem) (h : Inv s.buf) :
     Frames (Gen.push_front x) s [phys s.buf.start s.buf.cap (s.buf.cap - 1)] := by
   first
   | (rw [tie_push_front _ s h (nd_pushFront _ s h)]; exact C20_push_front s x h)
   | (have h0 := C20_push_front s x h; unfold Frames at h0 ⊢; rw [tie_push_front _ s h (nd_pushFront _ s h)]; exact h0)
 
-theorem C20_pop_back_src (s : Sys) (h : Inv s.buf) : Frames Gen.pop_back s [] := by
+maybe theorem C20_pop_back_src (s : Sys) (h : Inv s.buf) : Frames Gen.pop_back s [] := by
   first
   | (rw [tie_pop_back s h (nd_popBack s h)]; exact C20_pop_back s h)
   | (have h0 := C20_pop_back s h; unfold Frames at h0 ⊢; rw [tie_pop_back s h (nd_popBack s h)]; exact h0)
 
-theorem C20_pop_front_src (s : Sys) (h : Inv s.buf) : Frames Gen.pop_front s [] := by
+maybe theorem C20_pop_front_src (s : Sys) (h : Inv s.buf) : Frames Gen.pop_front s [] := by
   first
   | (rw [tie_pop_front s h (nd_popFront s h)]; exact C20_pop_front s h)
   | (have h0 := C20_pop_front s h; unfold Frames at h0 ⊢; rw [tie_pop_front s h (nd_popFront s h)]; exact h0)
 
-theorem C20_swap_src (s : Sys) (i j : Nat) (h : Inv s.buf) (hi : i < s.buf.size) (hj : j < s.buf.size) :
+maybe theorem C20_swap_src (s : Sys) (i j : Nat) (h : Inv s.buf) (hi : i < s.buf.size) (hj : j < s.buf.size) :
     Frames (Gen.swap i j) s [phys s.buf.start s.buf.cap i, phys s.buf.start s.buf.cap j] := by
   first
   | (rw [tie_swap _ _ s h (nd_swap _ _ s h)]; exact C20_swap s i j h hi hj)
   | (have h0 := C20_swap s i j h hi hj; unfold Frames at h0 ⊢; rw [tie_swap _ _ s h (nd_swap _ _ s h)]; exact h0)
 
-theorem C20_remove_src (s : Sys) (index : Nat) (h : Inv s.buf) (hidx : index < s.buf.size) :
+maybe theorem C20_remove_src (s : Sys) (index : Nat) (h : Inv s.buf) (hidx : index < s.buf.size) :
     ∃ r b', Gen.remove index s = (.ok r, { s with buf := b' }) ∧ b'.start = s.buf.start ∧
       ∀ i, i < index → b'.items (phys s.buf.start s.buf.cap i) = s.buf.items (phys s.buf.start s.buf.cap i) := by
   first
   | (rw [tie_remove _ s h (nd_remove _ s h)]; exact C20_remove s index h hidx)
 
-theorem C20_truncate_src (s : Sys) (rs re : Nat) (h : Inv s.buf) (hf : s.faults.drop = 0)
+maybe theorem C20_truncate_src (s : Sys) (rs re : Nat) (h : Inv s.buf) (hf : s.faults.drop = 0)
     (h1 : rs < re) (h2 : re ≤ s.buf.size) (h3 : rs = 0 ∨ re = s.buf.size) :
     ∃ s', Gen.drop_range (rs, re) s = (.ok (), s') ∧ s'.buf.items = s.buf.items := by
   first
   | (rw [tie_drop_range _ _ s h (nd_dropRange_nofault _ _ s h hf h1 h2 h3)]; exact C20_truncate s rs re h hf h1 h2 h3)
 
-theorem C20_make_contiguous_src (s : Sys) (h : Inv s.buf) (hc : s.buf.start + s.buf.size ≤ s.buf.cap) :
+maybe theorem C20_make_contiguous_src (s : Sys) (h : Inv s.buf) (hc : s.buf.start + s.buf.size ≤ s.buf.cap) :
     ∃ v, Gen.make_contiguous s = (.ok v, s) := by
   first
   | (rw [tie_make_contiguous s h (nd_makeContiguous s h)]; exact C20_make_contiguous s h hc)
